@@ -25,7 +25,7 @@ ATTR_KIND = {
     "fill-opacity": "number", "stroke-opacity": "number", "stroke-width": "length", "opacity": "number",
     "x": "length", "y": "length", "width": "length", "height": "length", "cx": "length", "cy": "length", "r": "length",
     "rx": "length", "ry": "length", "x1": "length", "y1": "length", "x2": "length", "y2": "length",
-    "style": "style",
+    "style": "style", "patternTransform": "transform",
 }
 
 BAD = {
@@ -131,6 +131,7 @@ class _Gen:
         self.opts = opts
         self.ids = []
         self.classes = []
+        self.clips = []
         self.n = 0
 
     def elem(self, tag, attrs=None, kids=None, text=None):
@@ -154,12 +155,17 @@ class _Gen:
                 ("shape", 10), ("g", 3 if depth < self.max_depth else 0), ("use", 2.5 if self.ids or self.opts.get("forward_use", True) else 0),
                 ("defs", 1 if depth <= 1 and not in_defs else 0), ("text", 1.2), ("title", 0.4), ("desc", 0.3),
                 ("svg", 0.7 if depth < self.max_depth and self.opts.get("nested_svg", True) else 0),
+                ("image", 0.5 if self.opts.get("extra_kinds") else 0), ("clip", 0.4 if self.opts.get("extra_kinds") and depth <= 2 else 0),
+                ("pattern", 0.25 if self.opts.get("extra_kinds") and depth <= 2 else 0), ("unknown", 0.3 if self.opts.get("extra_kinds") and depth < self.max_depth else 0),
+                ("tspan", 0.4 if self.opts.get("extra_kinds") else 0),
             ])
             if k == "shape":
                 e = gen_shape(ch, ch.choice(SHAPES), self.classes, pct_ok=self.opts.get("percent", True))
                 self.n += 1
                 self.budget -= 1
                 self.maybe_id(e)
+                if self.clips and ch.coin(0.3):
+                    e["attrs"]["clip-path"] = "url(#%s)" % ch.choice(self.clips)
                 out.append(e)
             elif k == "g":
                 a = {}
@@ -192,6 +198,42 @@ class _Gen:
                 out.append(e)
             elif k in ("title", "desc"):
                 e = self.elem(k, {}, text=ch.choice(["A title", "déscription", "t&t"]))
+                out.append(e)
+            elif k == "image":
+                a = {"x": _len(ch, pct_ok=False), "y": _len(ch, pct_ok=False), "width": _len(ch, True), "height": _len(ch, True), ch.choice(["href", "xlink:href"]): "pic%d.png" % self.n}
+                if ch.coin(0.3):
+                    a["preserveAspectRatio"] = ch.choice(["none", "xMinYMin meet"])
+                if ch.coin(0.4):
+                    a["transform"] = ch.choice(TRANSFORMS)
+                out.append(self.elem("image", a))
+            elif k == "clip":
+                cid = "cp%d" % self.n
+                e = self.elem("clipPath", {"id": cid})
+                e["kids"] = [gen_shape(ch, ch.choice(["rect", "circle", "path"]), self.classes)]
+                self.n += 1
+                self.budget -= 1
+                out.append(e)
+                self.clips.append(cid)
+            elif k == "pattern":
+                a = {"id": "pat%d" % self.n, "width": _pos(ch, 1, 50), "height": _pos(ch, 1, 50)}
+                if ch.coin(0.5):
+                    a["patternTransform"] = ch.choice(TRANSFORMS)
+                e = self.elem("pattern", a)
+                e["kids"] = [gen_shape(ch, ch.choice(["rect", "circle"]), self.classes)]
+                self.n += 1
+                self.budget -= 1
+                out.append(e)
+            elif k == "unknown":
+                a = {"bar": "1"}
+                _paint(ch, a, self.classes)
+                e = self.elem(ch.choice(["foo", "symbol", "marker", "switch", "a"]), a)
+                e["kids"] = self.children(depth + 1, in_defs)
+                out.append(e)
+            elif k == "tspan":
+                a = {"x": _num(ch), "y": _num(ch)}
+                _paint(ch, a, self.classes)
+                e = self.elem("text", a, text="outer ")
+                e["kids"] = [self.elem("tspan", {"dx": "5", "fill": ch.choice(COLORS)}, text=ch.choice(["inner", "ünï", "a&b"]))]
                 out.append(e)
             elif k == "svg":
                 a = {"x": _num(ch, 0, 50), "y": _num(ch, 0, 50), "width": _len(ch, True), "height": _len(ch, True)}
